@@ -20,13 +20,19 @@ type OpsCase struct {
 }
 
 // genOpsInput: a is int64 and b is int64 or float64 - always present and never null, so arithmetic and comparisons on
-// them stay clear of the expression-level findings; s is a string (sometimes absent), m mixes kinds freely and is only
-// moved around (cut, drop, rename, yield, sort key), c is an array, r a record.  Record types vary through m, s, c, r.
+// them stay clear of the expression-level findings; s is a string, m a column of 1..K kinds that is only moved around
+// (cut, drop, rename, yield, sort key), c an array, r a record.  The input has at most K (1..4; long inputs 1..2) record
+// types: every row follows one of K templates (which of s, m, c, r exist and which kind m has).  The bound matters: the
+// vector runtime's record expressions rip every dynamic argument by every other one, so a cut/put/yield{} over K record
+// types builds about K^2 vectors and a chain of them K^(2^depth) - with free-running type variety a four-operator
+// program over 270 rows ran out of 8 GB.  That cost is not something an oracle here can judge, so it is kept bounded.
 func genOpsInput(t *rapid.T) gen.Seq {
 	n := ir(t, 1, 25, "nrows")
 	long := chance(t, 6, "long")
+	k := ir(t, 1, 4, "ntemplates")
 	if long {
 		n = ir(t, 258, 290, "nrows-long")
+		k = ir(t, 1, 2, "ntemplates-long")
 	}
 	encOf := func(name string) string {
 		if long && chance(t, 60, name+"-plain") {
@@ -36,31 +42,39 @@ func genOpsInput(t *rapid.T) gen.Seq {
 	}
 	a := newCol(t, "a", []string{"int64"}, encOf("a"))
 	b := newCol(t, "b", []string{pick(t, "bkind", "int64", "float64")}, encOf("b"))
-	s := newCol(t, "s", pickOf(t, "s-kinds", [][]string{{"string"}, {"string"}, {"string", "missing"}}), encOf("s"))
-	m := newCol(t, "m", drawKinds(t, "m", inputOpts{}), encOf("m"))
-	hasM := chance(t, 70, "has-m")
-	hasC := chance(t, 60, "has-c")
-	hasR := chance(t, 60, "has-r")
+	s := newCol(t, "s", []string{"string"}, encOf("s"))
+	type tmplRow struct {
+		hasS, hasC, emptyC, hasR bool
+		m                        *colGen
+	}
+	mkinds := []string{"int64", "uint64", "float64", "string", "bool", "nullint", "nullstr", "int32", "uint8", "float32"}
+	var tmpls []tmplRow
+	for i := 0; i < k; i++ {
+		tr := tmplRow{hasS: chance(t, 80, "has-s"), hasC: chance(t, 60, "has-c"), emptyC: chance(t, 15, "empty-c"), hasR: chance(t, 60, "has-r")}
+		if chance(t, 75, "has-m") {
+			tr.m = newCol(t, "m", []string{pickOf(t, "mkind", mkinds)}, encOf("m"))
+		}
+		tmpls = append(tmpls, tr)
+	}
 	var sb strings.Builder
 	for row := 0; row < n; row++ {
+		tr := pickOf(t, "template", tmpls)
 		var fields []string
 		av, _ := a.value(t, row)
 		bv, _ := b.value(t, row)
 		fields = append(fields, "a:"+av, "b:"+bv)
-		if v, ok := s.value(t, row); ok {
+		if tr.hasS {
+			v, _ := s.value(t, row)
 			fields = append(fields, "s:"+v)
 		}
-		if hasM {
-			if v, ok := m.value(t, row); ok {
-				fields = append(fields, "m:"+v)
-			}
+		if tr.m != nil {
+			v, _ := tr.m.value(t, row)
+			fields = append(fields, "m:"+v)
 		}
-		if hasC {
-			switch ir(t, 0, 7, "ckind") {
-			case 0:
-			case 1:
+		if tr.hasC {
+			if tr.emptyC {
 				fields = append(fields, "c:[]([int64])")
-			default:
+			} else {
 				na := ir(t, 1, 3, "clen")
 				var el []string
 				for x := 0; x < na; x++ {
@@ -69,7 +83,7 @@ func genOpsInput(t *rapid.T) gen.Seq {
 				fields = append(fields, "c:["+strings.Join(el, ",")+"]")
 			}
 		}
-		if hasR && ir(t, 0, 5, "rkind") > 0 {
+		if tr.hasR {
 			fields = append(fields, fmt.Sprintf("r:{x:%d,y:%s}", ir(t, 0, 3, "rx"), pick(t, "ry", `"p"`, `"q"`)))
 		}
 		sb.WriteString("{" + strings.Join(fields, ",") + "} ")
@@ -130,6 +144,9 @@ type opState struct {
 	// missing fields make the vector runtime's nested dynamic/error vectors grow exponentially (minutes, gigabytes
 	// for four cuts over ten rows), which no oracle here can judge and the shared machine cannot afford.
 	missBudget int
+	// recExprBudget: how many more record-building operators (cut, put, yield {...}) may follow before a sort
+	// re-vectorises the stream (see genOpsInput)
+	recExprBudget int
 }
 
 func genOp(t *rapid.T, st *opState) string {
@@ -145,6 +162,13 @@ func genOp(t *rapid.T, st *opState) string {
 			if !st.fields[f] {
 				missing++
 			}
+		}
+		if buildsRecord(tm.text) && st.recExprBudget <= 0 {
+			if try < 40 {
+				continue
+			}
+			tm = tmpl("head N", "", "keep", "")
+			break
 		}
 		if missing > 0 && computes(tm.text) {
 			// arithmetic and comparisons on a missing operand are an expression-level finding (error operand not propagated)
@@ -166,6 +190,12 @@ func genOp(t *rapid.T, st *opState) string {
 			tm = tmpl("head N", "", "keep", "")
 			break
 		}
+	}
+	if buildsRecord(tm.text) {
+		st.recExprBudget--
+	}
+	if strings.HasPrefix(tm.text, "sort") {
+		st.recExprBudget = 2
 	}
 	switch tm.eff {
 	case "set":
@@ -194,6 +224,10 @@ func genOp(t *rapid.T, st *opState) string {
 	return text
 }
 
+func buildsRecord(text string) bool {
+	return strings.HasPrefix(text, "cut ") || strings.HasPrefix(text, "put ") || strings.HasPrefix(text, "yield {")
+}
+
 func computes(text string) bool {
 	return strings.HasPrefix(text, "where ") || strings.ContainsAny(text, "+*") || strings.Contains(text, "a-b")
 }
@@ -201,7 +235,7 @@ func computes(text string) bool {
 func genOpsCase(t *rapid.T) OpsCase {
 	c := OpsCase{Input: genOpsInput(t)}
 	n := ir(t, 1, 4, "nops")
-	st := &opState{fields: map[string]bool{"a": true, "b": true, "s": true, "m": true, "c": true, "r": true}, recs: true, missBudget: 1}
+	st := &opState{fields: map[string]bool{"a": true, "b": true, "s": true, "m": true, "c": true, "r": true}, recs: true, missBudget: 1, recExprBudget: 2}
 	for i := 0; i < n; i++ {
 		c.Ops = append(c.Ops, genOp(t, st))
 	}
@@ -237,6 +271,18 @@ func streamShape(vals []zed.Value) string {
 	return s
 }
 
+// opsKind: record | value (any other non-error value) | missing | error(...)
+func opsKind(v zed.Value) string {
+	k := coarseSym(kindOf(v))
+	switch {
+	case k == "missing" || k == "quiet" || strings.HasPrefix(k, "error"):
+		return k
+	case k == "record":
+		return "record"
+	}
+	return "value"
+}
+
 // diffSymptom classifies how two result sequences differ ("" = identical).
 func diffSymptom(sam, vam []zed.Value) (string, string) {
 	n := min(len(sam), len(vam))
@@ -244,7 +290,7 @@ func diffSymptom(sam, vam []zed.Value) (string, string) {
 		if oracle.Key(sam[i]) == oracle.Key(vam[i]) {
 			continue
 		}
-		ks, kv := coarseSym(kindOf(sam[i])), coarseSym(kindOf(vam[i]))
+		ks, kv := opsKind(sam[i]), opsKind(vam[i])
 		detail := fmt.Sprintf("value %d: sequential %s, vector %s", i, oracle.Show(sam[i]), oracle.Show(vam[i]))
 		if ks != kv {
 			return ks + "->" + kv, detail
@@ -291,8 +337,37 @@ func referencesField(op string) bool {
 	return !strings.HasSuffix(op, " this") && op != "yield {v:this}"
 }
 
+// symFamily reduces a symptom to the family used in signatures: values-differ (same number of values, some value or
+// its type differs), count-differs, order-differs, panic(...)@frame, query-error(...).
+func symFamily(sym string) string {
+	switch {
+	case strings.HasPrefix(sym, "panic("), strings.HasPrefix(sym, "query-error("), sym == "order-differs":
+		return sym
+	case sym == "fewer-values" || sym == "more-values":
+		return "count-differs"
+	}
+	return "values-differ"
+}
+
+// producesView: where with a partial selection, tail that truncates and head that reaches its limit hand a
+// vector.View of their input downstream (otherwise the input vector itself).
+func producesView(op string, in, out int) bool {
+	if out == 0 {
+		return false
+	}
+	switch opKind(op) {
+	case "where", "tail":
+		return out < in
+	case "head":
+		var n int
+		fmt.Sscanf(op, "head %d", &n)
+		return out == n
+	}
+	return false
+}
+
 // opsRootCause recognises root causes that show up under many operator/symptom combinations.
-func opsRootCause(ops []string, at int, lens []int, sym string, sam, vam []zed.Value) string {
+func opsRootCause(ops []string, at int, lens []int, shapeAt, sym string, sam, vam []zed.Value) string {
 	if strings.HasPrefix(sym, "panic(") || strings.HasPrefix(sym, "query-error(") {
 		return ""
 	}
@@ -308,7 +383,16 @@ func opsRootCause(ops []string, at int, lens []int, sym string, sam, vam []zed.V
 			return "over/missing-input-emits-error-missing"
 		}
 	}
-	// 2. field access on the output of an operator that selected a subset (where, head, tail produce vector views;
+	// 2. a record operator applied to values that are not records
+	if at > 0 || true {
+		switch opKind(ops[at]) {
+		case "drop", "rename", "put", "cut":
+			if shapeAt == "values" || shapeAt == "mixed" {
+				return "record-operator-on-non-record(" + opKind(ops[at]) + ")"
+			}
+		}
+	}
+	// 3. field access on the output of an operator that selected a subset (where, head, tail produce vector views;
 	// sort materialises and re-vectorises)
 	if referencesField(ops[at]) {
 		for j := at - 1; j >= 0; j-- {
@@ -316,7 +400,7 @@ func opsRootCause(ops []string, at int, lens []int, sym string, sam, vam []zed.V
 			if k == "sort" {
 				break
 			}
-			if (k == "where" || k == "head" || k == "tail") && j+1 < len(lens) && lens[j+1] < lens[j] && lens[j+1] > 0 {
+			if j+1 < len(lens) && producesView(ops[j], lens[j], lens[j+1]) {
 				return "field-access-after-subset(" + opKind(ops[at]) + ")"
 			}
 		}
@@ -386,8 +470,8 @@ func runOpsCase(c OpsCase) *vt.Outcome {
 		lens = append(lens, len(s))
 		prev = s
 	}
-	sig := "C09/ops/" + opKind(c.Ops[at]) + "(" + shape + ")/" + sym
-	if rc := opsRootCause(c.Ops, at, lens, sym, samAt, vamAt); rc != "" {
+	sig := "C09/ops/" + opKind(c.Ops[at]) + "(" + shape + ")/" + symFamily(sym)
+	if rc := opsRootCause(c.Ops, at, lens, shape, sym, samAt, vamAt); rc != "" {
 		sig = "C09/ops/" + rc
 	}
 	msg := fmt.Sprintf("`%s` over %d values (e.g. %s): the vector runtime differs from the sequential runtime from operator %d (`%s`, input %s) on: %s: %s",
@@ -402,7 +486,7 @@ func runOpsCase(c OpsCase) *vt.Outcome {
 
 var opsProp = &vt.Prop[OpsCase]{
 	Name: "TestVamOps",
-	Rule: "file level, operator pipelines: input = 1..25 (6%: 258..290) records {a:int64, b:int64|float64 (always present, never null), s:string|null|missing, m: a column mixing 1..3 kinds (only moved, never computed on), c:[int64], r:{x,y}} with several record types per input and const/dict/plain columns; " +
+	Rule: "file level, operator pipelines: input = 1..25 (6%: 258..290) records {a:int64, b:int64|float64 (always present, never null), s:string, m: a column of up to 4 kinds (only moved, never computed on), c:[int64], r:{x,y}} following 1..4 row templates (so at most 4 record types per input; at most 2 record-building operators between sorts - the vector runtime's record expressions cost K^(2^depth) for K record types) with const/dict/plain columns; " +
 		"program = 1..4 operators of cut (paths, assignments, missing fields), drop, put (new, overwrite, nested), rename, yield (field, several expressions, record expression, spread), where (comparisons and arithmetic on a, b, s that the expression-level test found to agree), head, tail, sort (-r, several keys, mixed-type key, -nulls first), over (array, record, two expressions), and value-level operators once the stream holds primitives. " +
 		"The whole output of compiler.VectorCompile over the VNG object of the input must be identical (sequence; identity = type value bytes + value bytes) to the sequential runtime's; a difference is localised to the first operator whose prefix program differs and classified as operator(input shape)/symptom. Programs the vector compiler rejects are skipped (counted). Non-trivial = accepted by the vector compiler.",
 	Gen: genOpsCase,
